@@ -1279,3 +1279,294 @@ Proof.
   intros H Hq. destruct (reg_split_row_spec P max_j q mp size w H Hq) as [r' [prow' [E1 [E2 [E3 [E4 E5]]]]]].
   exists r', prow'. repeat (split; [assumption|]). intros x. apply (E5 (xh x)).
 Qed.
+
+(* ------------------------------------------------------------------ inverse of a symmetric positive definite matrix *)
+Definition mv (M : Rmat) (x : list R) : list R := map (fun r => Rdot r x) M.
+Lemma Rbil_mv x (M : Rmat) y : Rbil x M y = Rdot x (mv M y).
+Proof.
+  unfold Rbil, Rdot, mv. revert x. induction M as [|r M IH]; intros [|a x]; cbn [combine map sumR fst snd]; auto.
+  rewrite IH. reflexivity.
+Qed.
+Lemma Rdot_comm a b : Rdot a b = Rdot b a.
+Proof.
+  unfold Rdot. revert b. induction a as [|x a IH]; intros [|y b]; cbn [combine map sumR fst snd]; auto. rewrite IH. lra.
+Qed.
+Lemma mv_length (M : Rmat) x : length (mv M x) = length M.
+Proof. apply map_length. Qed.
+Lemma Rdot_all_zero r y : (forall i, nth i y 0 = 0) -> Rdot r y = 0.
+Proof.
+  unfold Rdot. revert y. induction r as [|a r IH]; intros [|b y] H; cbn [combine map sumR fst snd]; auto.
+  rewrite (IH y) by (intros i; apply (H (S i))). pose proof (H 0%nat) as H0. cbn in H0. subst. lra.
+Qed.
+Lemma nonzero_dec (y : list R) : nonzero y \/ forall i, nth i y 0 = 0.
+Proof.
+  induction y as [|b y IH]; [right; intros [|i]; reflexivity|].
+  destruct (Req_EM_T b 0) as [->|Hb]; [|left; exists 0%nat; exact Hb].
+  destruct IH as [[i Hi]|Hz]; [left; exists (S i); exact Hi|right; intros [|i]; [reflexivity|apply Hz]].
+Qed.
+
+Lemma nth_mv_zero (M : Rmat) y : (forall i, nth i y 0 = 0) -> forall i, nth i (mv M y) 0 = 0.
+Proof.
+  intros H. unfold mv. induction M as [|r M IH]; intros [|i]; cbn [map nth]; auto. apply Rdot_all_zero, H.
+Qed.
+
+Section Inverse.
+  Variables (n : nat) (C K : Rmat).
+  Hypothesis HC : wfm n C.
+  Hypothesis HK : wfm n K.
+  Hypothesis HsymC : forall x y, length x = n -> length y = n -> Rbil x C y = Rbil y C x.
+  Hypothesis HPD : forall x, length x = n -> nonzero x -> 0 < @quad ROps C x.
+  (* the contract of numpy.linalg.inv:  C (K x) = x *)
+  Hypothesis Hinv : forall x, length x = n -> mv C (mv K x) = x.
+
+  Lemma mvK_len x : length (mv K x) = n.
+  Proof. rewrite mv_length. apply HK. Qed.
+  Lemma inv_bil_sym x z : length x = n -> length z = n -> Rbil x K z = Rbil z K x.
+  Proof.
+    intros Hx Hz. rewrite !Rbil_mv.
+    set (u := mv K x). set (v := mv K z).
+    assert (Eu : x = mv C u) by (symmetry; apply Hinv, Hx). assert (Ev : z = mv C v) by (symmetry; apply Hinv, Hz).
+    rewrite Eu at 1. rewrite Ev at 1.
+    rewrite (Rdot_comm (mv C u) v), <- Rbil_mv, (HsymC v u) by apply mvK_len. rewrite Rbil_mv. apply Rdot_comm.
+  Qed.
+  Lemma inv_symmetric : symmetric_n n K.
+  Proof.
+    intros a b Ha Hb. rewrite !(mget_Rbil n) by auto. apply inv_bil_sym; unfold unit; rewrite map_length, seq_length; reflexivity.
+  Qed.
+  Lemma inv_pd x : length x = n -> nonzero x -> 0 < @quad ROps K x.
+  Proof.
+    intros Hx Hnz. unfold quad. rewrite bil_R, Rbil_mv. set (y := mv K x).
+    assert (Ey : x = mv C y) by (symmetry; apply Hinv, Hx).
+    rewrite Ey at 1. rewrite Rdot_comm, <- Rbil_mv, <- bil_R. apply HPD; [apply mvK_len|].
+    destruct (nonzero_dec y) as [Hy|Hz]; [exact Hy|]. exfalso.
+    destruct Hnz as [i Hi]. apply Hi. rewrite Ey. apply nth_mv_zero, Hz.
+  Qed.
+End Inverse.
+
+(* ------------------------------------------------------------------ kernel schemes: covariance assembly, coefficient * inverse *)
+Lemma dist2_sym (p q : R * R) : @dist2 ROps p q = @dist2 ROps q p.
+Proof. unfold dist2, sq. cbn [add sub mul ROps]. tr. ring. Qed.
+Lemma cov_entries_inr eps kern (pts : list (R * R)) : Forall (inr (length pts)) (@cov_entries ROps eps kern pts).
+Proof.
+  unfold cov_entries. apply Forall_forall. intros e He. apply in_flat_map in He. destruct He as [[i p] [Hi He]].
+  apply in_indexed in Hi. destruct Hi as [Hi _]. cbn [fst snd] in He. destruct He as [<-|He]; [split; cbn [fst snd]; tr; lia|].
+  apply in_map_iff in He. destruct He as [[j q] [<- Hj]]. apply in_indexed in Hj. destruct Hj as [Hj _]. split; cbn [fst snd]; tr; lia.
+Qed.
+Lemma ES_cov eps kern (pts : list (R * R)) f g :
+  ES (@cov_entries ROps eps kern pts) f g =
+  eps * sumR (map (fun ip => f (fst ip) * g (fst ip)) (indexed pts))
+  + sumR (map (fun ip => sumR (map (fun jq => f (fst ip) * kern (@dist2 ROps (snd ip) (snd jq)) * g (fst jq)) (indexed pts))) (indexed pts)).
+Proof.
+  unfold cov_entries. rewrite ES_flat_map, <- sumR_map_scal, <- sumR_map_add. apply sumR_map_ext. intros [i p] _.
+  rewrite ES_cons. cbn [fst snd]. f_equal; [lra|]. unfold ES. rewrite map_map. reflexivity.
+Qed.
+Lemma ES_cov_sym eps kern (pts : list (R * R)) f g : ES (@cov_entries ROps eps kern pts) f g = ES (@cov_entries ROps eps kern pts) g f.
+Proof.
+  rewrite !ES_cov. f_equal; [f_equal; apply sumR_map_ext; intros; lra|].
+  rewrite sumR_swap. apply sumR_map_ext. intros [i p] _. apply sumR_map_ext. intros [j q] _. cbn [fst snd].
+  rewrite (dist2_sym q p). lra.
+Qed.
+Lemma cov_bil_sym eps kern (pts : list (R * R)) x y :
+  Rbil x (@cov_matrix ROps eps kern pts) y = Rbil y (@cov_matrix ROps eps kern pts) x.
+Proof. unfold cov_matrix. rewrite !Rbil_build by apply cov_entries_inr. apply ES_cov_sym. Qed.
+Lemma T_cov_size eps kern (pts : list (R * R)) : square_n (length pts) (@cov_matrix ROps eps kern pts).
+Proof. apply build_wfm. Qed.
+Lemma T_cov_sym eps kern (pts : list (R * R)) : symmetric_n (length pts) (@cov_matrix ROps eps kern pts).
+Proof. unfold symmetric_n. apply build_symmetric; [apply cov_entries_inr|]. intros f g. apply ES_cov_sym. Qed.
+
+Lemma mat_vec_R (M : Rmat) x : @mat_vec ROps M x = mv M x.
+Proof. unfold mat_vec, mv. apply map_ext. intros r. apply dot_R. Qed.
+Lemma Rdot_scale c (r : list R) y : Rdot (map (Rmult c) r) y = c * Rdot r y.
+Proof.
+  unfold Rdot. revert y. induction r as [|a r IH]; intros [|b y]; cbn [map combine sumR fst snd]; try lra. rewrite IH. lra.
+Qed.
+Lemma Rbil_scale c x (K : Rmat) y : Rbil x (@scale_matrix ROps c K) y = c * Rbil x K y.
+Proof.
+  unfold Rbil, scale_matrix. cbn [mul ROps]. revert x. induction K as [|r K IH]; intros [|a x]; cbn [map combine sumR fst snd]; try lra.
+  rewrite IH, Rdot_scale. lra.
+Qed.
+Lemma nth_map_Rmult c (r : list R) b : nth b (map (Rmult c) r) 0 = c * nth b r 0.
+Proof. revert b. induction r as [|a r IH]; intros [|b]; cbn [map nth]; try lra. apply IH. Qed.
+Lemma mget_scale c (K : Rmat) a b : @mget ROps (@scale_matrix ROps c K) a b = c * @mget ROps K a b.
+Proof.
+  unfold mget, scale_matrix, nthT, zero. cbn [mul ofZ ROps].
+  transitivity (nth b (map (Rmult c) (nth a K [])) 0); [|apply nth_map_Rmult].
+  f_equal. exact (map_nth (map (Rmult c)) K [] a).
+Qed.
+(* PARTIAL: positive definiteness of the covariance matrix itself (Gaussian / exponential kernel matrices of distinct
+   points: Bochner / Schur) is a HYPOTHESIS here, and numpy.linalg.inv enters through its contract C (K x) = x. *)
+Lemma T_kernel_partial eps kern (pts : list (R * R)) (K : Rmat) coef :
+  (forall x, length x = length pts -> nonzero x -> 0 < @quad ROps (@cov_matrix ROps eps kern pts) x) ->
+  square_n (length pts) K ->
+  (forall x, length x = length pts -> @mat_vec ROps (@cov_matrix ROps eps kern pts) (@mat_vec ROps K x) = x) ->
+  0 < coef ->
+  symmetric_n (length pts) (@scale_matrix ROps coef K)
+  /\ forall x, length x = length pts -> nonzero x -> 0 < @quad ROps (@scale_matrix ROps coef K) x.
+Proof.
+  intros HPD HK Hinv Hc.
+  assert (Hinv' : forall x, length x = length pts -> mv (@cov_matrix ROps eps kern pts) (mv K x) = x).
+  { intros x Hx. rewrite <- !mat_vec_R. apply Hinv, Hx. }
+  split.
+  - intros a b Ha Hb. rewrite !mget_scale. f_equal.
+    apply (inv_symmetric (length pts) (@cov_matrix ROps eps kern pts) K HK (fun x y _ _ => cov_bil_sym eps kern pts x y) Hinv'); auto.
+  - intros x Hx Hnz. unfold quad. rewrite bil_R, Rbil_scale, <- bil_R. apply Rmult_lt_0_compat; [exact Hc|].
+    apply (inv_pd (length pts) (@cov_matrix ROps eps kern pts) K HK HPD Hinv'); auto.
+Qed.
+
+(* ------------------------------------------------------------------ rectangular meshes: finite sweep *)
+Lemma rect_sweep_10 : forallb rect_shape_ok (shapes 2 10) = true.
+Proof. vm_compute. reflexivity. Qed.
+Lemma T_rect_upto_10 H W : (2 <= H <= 10)%nat -> (2 <= W <= 10)%nat ->
+  rect_neighbors H W = map (map Z.of_nat) (grid_rows H W) /\ nb_ok (grid_rows H W) = true.
+Proof.
+  intros HH HW. pose proof rect_sweep_10 as S. rewrite forallb_forall in S.
+  assert (I : In (H, W) (shapes 2 10)).
+  { unfold shapes. apply in_flat_map. exists H. split; [apply in_seq; lia|]. apply in_map_iff. exists W. split; [reflexivity|apply in_seq; lia]. }
+  specialize (S _ I). unfold rect_shape_ok in S. cbn [fst snd] in S. apply andb_true_iff in S. destruct S as [S1 S2]. split; [|exact S2].
+  clear -S1. revert S1. generalize (map (map Z.of_nat) (grid_rows H W)). generalize (rect_neighbors H W).
+  induction l as [|r l IH]; intros [|r' l'] E; cbn in E; try discriminate; auto.
+  apply andb_true_iff in E. destruct E as [E1 E2]. f_equal; [|apply IH, E2].
+  clear -E1. revert r' E1. induction r as [|a r IH]; intros [|a' r'] E; cbn in E; try discriminate; auto.
+  apply andb_true_iff in E. destruct E as [E1 E2]. apply Z.eqb_eq in E1. f_equal; auto.
+Qed.
+
+(* ------------------------------------------------------------------ regularization_matrix_reduced *)
+Definition del {A} (s : nat) (l : list A) (idx : list nat) : list A :=
+  map snd (filter (fun ia : nat * A => negb (existsb (Nat.eqb (fst ia)) idx)) (combine (seq s (length l)) l)).
+Lemma delete_idx_del {A} (l : list A) idx : delete_idx l idx = del 0 l idx.
+Proof. reflexivity. Qed.
+Lemma mem_idx i idx : existsb (Nat.eqb i) idx = true <-> In i idx.
+Proof.
+  rewrite existsb_exists. split; [intros [x [Hx E]]; apply Nat.eqb_eq in E; subst; exact Hx|intros H; exists i; split; [exact H|apply Nat.eqb_refl]].
+Qed.
+Lemma del_cons {A} s (a : A) l idx :
+  del s (a :: l) idx = (if existsb (Nat.eqb s) idx then [] else [a]) ++ del (S s) l idx.
+Proof. unfold del. cbn [length seq combine filter fst]. destruct (existsb (Nat.eqb s) idx); reflexivity. Qed.
+Lemma del_app {A} s (l1 l2 : list A) idx : del s (l1 ++ l2) idx = del s l1 idx ++ del (s + length l1) l2 idx.
+Proof.
+  revert s. induction l1 as [|a l1 IH]; intros s; [cbn [app length]; rewrite Nat.add_0_r; reflexivity|].
+  cbn [app length]. rewrite !del_cons, IH, <- app_assoc. replace (S s + length l1)%nat with (s + S (length l1))%nat by lia. reflexivity.
+Qed.
+Lemma del_all {A} s (l : list A) idx : (forall i, (s <= i < s + length l)%nat -> In i idx) -> del s l idx = [].
+Proof.
+  revert s. induction l as [|a l IH]; intros s H; [reflexivity|]. rewrite del_cons.
+  assert (E : existsb (Nat.eqb s) idx = true) by (apply mem_idx, H; cbn [length]; lia). rewrite E.
+  apply IH. intros i Hi. apply H. cbn [length]. lia.
+Qed.
+Lemma del_none {A} s (l : list A) idx : (forall i, (s <= i < s + length l)%nat -> ~ In i idx) -> del s l idx = l.
+Proof.
+  revert s. induction l as [|a l IH]; intros s H; [reflexivity|]. rewrite del_cons.
+  destruct (existsb (Nat.eqb s) idx) eqn:E; [apply mem_idx in E; exfalso; apply (H s); [cbn [length]; lia|exact E]|].
+  cbn [app]. f_equal. apply IH. intros i Hi. apply H. cbn [length]. lia.
+Qed.
+Lemma del_ext {A} s (l : list A) idx idx' : (forall i, (s <= i < s + length l)%nat -> (In i idx <-> In i idx')) -> del s l idx = del s l idx'.
+Proof.
+  revert s. induction l as [|a l IH]; intros s H; [reflexivity|]. rewrite !del_cons.
+  assert (E : existsb (Nat.eqb s) idx = existsb (Nat.eqb s) idx').
+  { destruct (existsb (Nat.eqb s) idx) eqn:E1, (existsb (Nat.eqb s) idx') eqn:E2; auto.
+    - apply mem_idx in E1. apply H in E1; [|cbn [length]; lia]. apply mem_idx in E1. congruence.
+    - apply mem_idx in E2. apply H in E2; [|cbn [length]; lia]. apply mem_idx in E2. congruence. }
+  rewrite E. f_equal. apply IH. intros i Hi. apply H. cbn [length]. lia.
+Qed.
+Lemma del_map {A B} s (g : A -> B) l idx : del s (map g l) idx = map g (del s l idx).
+Proof.
+  revert s. induction l as [|a l IH]; intros s; [reflexivity|]. cbn [map]. rewrite !del_cons, IH, map_app.
+  destruct (existsb (Nat.eqb s) idx); reflexivity.
+Qed.
+Lemma del_length {A B} s (l : list A) (l' : list B) idx : length l = length l' -> length (del s l idx) = length (del s l' idx).
+Proof.
+  revert s l'. induction l as [|a l IH]; intros s [|b l'] H; cbn in H; try discriminate; [reflexivity|].
+  rewrite !del_cons, !app_length, (IH (S s) l') by lia. destruct (existsb (Nat.eqb s) idx); reflexivity.
+Qed.
+Lemma del_zeros s n idx : del s (@zeros ROps n) idx = @zeros ROps (length (del s (@zeros ROps n) idx)).
+Proof.
+  unfold zeros. revert s. induction n as [|n IH]; intros s; [reflexivity|]. cbn [repeat]. rewrite del_cons.
+  destruct (existsb (Nat.eqb s) idx); cbn [app length repeat]; [apply IH|f_equal; apply IH].
+Qed.
+
+Notation nriR := (@no_reg_indexes ROps).
+Fixpoint totalp (objs : list (nat * option Rmat)) : nat := match objs with [] => 0%nat | o :: t => (fst o + totalp t)%nat end.
+Definition objs_ok (objs : list (nat * option Rmat)) : Prop :=
+  Forall (fun o => match snd o with Some H => wfm (fst o) H | None => True end) objs.
+Lemma nri_range objs : forall off i, In i (nriR off objs) -> (off <= i < off + totalp objs)%nat.
+Proof.
+  induction objs as [|[p r] t IH]; intros off i H; [destruct H|]. cbn [no_reg_indexes totalp fst] in *.
+  apply in_app_or in H. destruct H as [H|H].
+  - destruct r; [destruct H|]. apply in_seq in H. lia.
+  - apply IH in H. lia.
+Qed.
+Lemma obj_matrix_wfm o : (match snd o with Some H => wfm (fst o) H | None => True end) -> wfm (fst o) (@obj_matrix ROps o).
+Proof. destruct o as [p [H|]]; cbn [fst snd obj_matrix]; intros W; [exact W|apply mzeros_wfm]. Qed.
+Lemma objs_blocks_square objs : objs_ok objs -> blocks_square (map (@obj_matrix ROps) objs) /\ total (map (@obj_matrix ROps) objs) = totalp objs.
+Proof.
+  induction 1 as [|o t Ho HT [IH1 IH2]]; [split; [constructor|reflexivity]|].
+  pose proof (obj_matrix_wfm o Ho) as W. cbn [map total totalp]. destruct W as [WL WF]. split.
+  - constructor; [|exact IH1]. split; [reflexivity|]. tr. rewrite WL. exact WF.
+  - tr. rewrite WL, IH2. reflexivity.
+Qed.
+Lemma filter_objs_ok objs : objs_ok objs -> objs_ok (filter (@has_reg ROps) objs).
+Proof. unfold objs_ok. intros H. apply Forall_forall. intros o Ho. apply filter_In in Ho. rewrite Forall_forall in H. apply H, Ho. Qed.
+
+Lemma del_count t : forall off (l : list R), length l = totalp t -> length (del off l (nriR off t)) = totalp (filter (@has_reg ROps) t).
+Proof.
+  induction t as [|[p r] t IH]; intros off l HL; [destruct l; [reflexivity|discriminate]|].
+  cbn [totalp fst] in HL. rewrite <- (firstn_skipn p l). rewrite del_app.
+  assert (L1 : length (firstn p l) = p) by (apply firstn_length_le; lia).
+  assert (L2 : length (skipn p l) = totalp t) by (rewrite skipn_length; lia).
+  rewrite app_length, L1. cbn [no_reg_indexes].
+  rewrite (del_ext (off + p) (skipn p l) _ (nriR (off + p) t)).
+  2:{ intros i Hi. split; [|intros H; apply in_or_app; right; exact H]. intros H. apply in_app_or in H. destruct H as [H|H]; [|exact H].
+      destruct r; [destruct H|]. apply in_seq in H. lia. }
+  rewrite (IH (off + p)%nat _ L2). destruct r as [H|]; cbn [filter has_reg snd totalp fst].
+  - rewrite del_none; [rewrite L1; reflexivity|]. intros i Hi H1. rewrite L1 in Hi. cbn [app] in H1. apply nri_range in H1. lia.
+  - rewrite del_all; [reflexivity|]. intros i Hi. rewrite L1 in Hi. apply in_or_app. left. apply in_seq. lia.
+Qed.
+
+Lemma reduced_gen t : objs_ok t -> forall off,
+  map (fun r => del off r (nriR off t)) (del off (block_diagR (map (@obj_matrix ROps) t)) (nriR off t))
+  = block_diagR (map (@obj_matrix ROps) (filter (@has_reg ROps) t)).
+Proof.
+  induction 1 as [|[p r] t Ho HT IH]; intros off; [reflexivity|].
+  pose proof (obj_matrix_wfm _ Ho) as WB. cbn [fst] in WB.
+  destruct (objs_blocks_square t HT) as [SQ TT]. pose proof (block_diag_wfm _ SQ) as WH. rewrite TT in WH.
+  destruct (objs_blocks_square _ (filter_objs_ok t HT)) as [SQf TTf]. pose proof (block_diag_wfm _ SQf) as WHf. rewrite TTf in WHf.
+  set (B := @obj_matrix ROps (p, r)) in *. set (Hr := block_diagR (map (@obj_matrix ROps) t)) in *.
+  set (N := totalp t) in *. set (Ir := nriR (off + p) t).
+  cbn [map]. fold B. rewrite block_diag_cons. fold Hr. rewrite (wfm_width _ _ WH), (wfm_width _ _ WB).
+  cbn [no_reg_indexes]. fold Ir. set (I0 := match r with Some _ => [] | None => seq off p end).
+  assert (LB : length (map (fun r0 : list R => r0 ++ @zeros ROps N) B) = p) by (rewrite map_length; apply WB).
+  tr. rewrite del_app, LB.
+  assert (Eext : forall {A} (l : list A), del (off + p) l (I0 ++ Ir) = del (off + p) l Ir).
+  { intros A l. apply del_ext. intros i Hi. split; [|intros H; apply in_or_app; right; exact H].
+    intros H. apply in_app_or in H. destruct H as [H|H]; [|exact H]. unfold I0 in H. destruct r; [destruct H|]. apply in_seq in H. lia. }
+  rewrite Eext, map_app.
+  rewrite !del_map, !map_map.
+  assert (Ecol2 : forall r', del off (@zeros ROps p ++ r') (I0 ++ Ir) = del off (@zeros ROps p) (I0 ++ Ir) ++ del (off + p) r' Ir).
+  { intros r'. rewrite del_app. unfold zeros at 2. rewrite repeat_length, Eext. reflexivity. }
+  assert (WBl : length B = p) by apply WB.
+  destruct r as [Hm|].
+  - (* a regularized block: kept *)
+    unfold I0 in *. cbn [app] in *. cbn [filter has_reg snd map]. fold B.
+    rewrite block_diag_cons, (wfm_width _ _ WHf), (wfm_width _ _ WB).
+    tr. rewrite del_none by (intros i Hi H1; apply nri_range in H1; tr; rewrite WBl in Hi; lia).
+    f_equal.
+    + apply map_ext_in. intros r0 Hr0. destruct WB as [_ WF]. rewrite Forall_forall in WF. specialize (WF _ Hr0).
+      rewrite del_app. tr. rewrite WF. rewrite (del_none off r0 Ir) by (intros i Hi H1; apply nri_range in H1; tr; rewrite WF in Hi; lia).
+      f_equal. rewrite del_zeros. f_equal. apply del_count. unfold zeros. apply repeat_length.
+    + rewrite <- (IH (off + p)%nat), map_map. apply map_ext. intros r'. rewrite Ecol2.
+      rewrite del_none; [reflexivity|]. intros i Hi H1. unfold zeros in Hi. rewrite repeat_length in Hi. apply nri_range in H1. lia.
+  - (* an object without regularization: its rows and columns disappear *)
+    cbn [filter has_reg snd].
+    tr. rewrite del_all by (intros i Hi; tr; rewrite WBl in Hi; apply in_or_app; left; unfold I0; apply in_seq; lia).
+    cbn [map app]. rewrite <- (IH (off + p)%nat). apply map_ext. intros r'. rewrite Ecol2.
+    rewrite del_all; [reflexivity|]. intros i Hi. unfold zeros in Hi. rewrite repeat_length in Hi. apply in_or_app. left. unfold I0. apply in_seq. lia.
+Qed.
+Lemma filter_all_reg (objs : list (nat * option Rmat)) : forallb (@has_reg ROps) objs = true -> filter (@has_reg ROps) objs = objs.
+Proof. induction objs as [|o t IH]; intros H; [reflexivity|]. cbn in H. apply andb_true_iff in H. destruct H as [H1 H2]. cbn [filter]. rewrite H1, IH by exact H2. reflexivity. Qed.
+Lemma T_reduced objs : objs_ok objs ->
+  @inversion_matrix_reduced ROps objs = @inversion_matrix ROps (filter (@has_reg ROps) objs).
+Proof.
+  intros H. unfold inversion_matrix_reduced, inversion_matrix. destruct (forallb (@has_reg ROps) objs) eqn:E.
+  - rewrite filter_all_reg by exact E. reflexivity.
+  - rewrite <- (reduced_gen objs H 0). reflexivity.
+Qed.
